@@ -35,6 +35,7 @@ static const long long T0_MS = 1600000000000LL;	// 2020-09-13T12:26:40Z
 static Poco::Net::StreamSocket *g_sock(nullptr);
 static std::vector<std::string> g_events;
 static unsigned g_writes(0);
+static int g_fail_writes = 0;
 
 // generic field access (text as the field prints itself); "-" when absent
 static std::string fld(const MessageBase *mb, unsigned short tag)
@@ -111,6 +112,12 @@ extern "C" ssize_t send(int fd, const void *buf, size_t n, int flags)
 	static sfn real((sfn)dlsym(RTLD_NEXT, "send"));
 	if (fd >= 0 && g_sock && fd == g_sock->impl()->sockfd())
 	{
+		if (g_fail_writes > 0)	// op `wfail`: the socket write fails (connection lost under the writer)
+		{
+			--g_fail_writes;
+			errno = EPIPE;
+			return -1;
+		}
 		++g_writes;
 		std::vector<std::string> frames;
 		cut_frames(std::string(static_cast<const char *>(buf), n), frames);
@@ -250,9 +257,12 @@ int main()
 		try
 		{
 			if (a.empty()) { out("bad-op"); continue; }
-			if (a[0] == "new" && (a.size() == 5 || (a.size() == 6 && a[5] == "A")))
+			if (a[0] == "new" && (a.size() == 5 || (a.size() == 6 && (a[5] == "A" || a[5] == "X"))))
 			{
-				w.always = a.size() == 6;
+				// A = _always_seqnum_assign on; X = segment with the extended operations (fwd outside A, dbatch, wfail): both are
+				// outside the Lean model and judged by the property oracles only
+				w.always = a.size() == 6 && a[5] == "A";
+				g_fail_writes = 0;
 				w.drop_session();
 				rmtree(g_dir);
 				vclock::set(T0_MS * 1000000LL);
@@ -298,6 +308,30 @@ int main()
 				Message *m(mk_order(a[1]));
 				*m->Header() << new msg_seq_num(unsigned(std::stoul(a[2]))) << new sending_time;
 				const bool r(w.sess->send(m, true, 0, false));
+				g_events.push_back(r ? "ret=1" : "ret=0");
+			}
+			else if (a[0] == "dbatch" && a.size() >= 2)
+			{
+				// send_batch whose elements are new orders (`pid`) or forwarded messages that already carry a MsgSeqNum (`pid@seq`:
+				// send_process marks them PossDupFlag=Y, they are retransmissions)
+				std::vector<Message *> ms;
+				for (size_t i(1); i < a.size(); ++i)
+				{
+					const size_t at(a[i].find('@'));
+					Message *m(mk_order(a[i].substr(0, at)));
+					if (at != std::string::npos)
+						*m->Header() << new msg_seq_num(unsigned(std::stoul(a[i].substr(at + 1)))) << new sending_time;
+					ms.push_back(m);
+				}
+				const size_t r(w.sess->send_batch(ms, true));
+				std::ostringstream os; os << "ret=" << r; g_events.push_back(os.str());
+			}
+			else if (a[0] == "wfail" && a.size() == 2)
+			{
+				// an application send whose socket write fails
+				g_fail_writes = 1;
+				const bool r(w.sess->send(mk_order(a[1]), true, 0, false));
+				g_fail_writes = 0;
 				g_events.push_back(r ? "ret=1" : "ret=0");
 			}
 			else if ((a[0] == "batch" && a.size() >= 2) || (a[0] == "bbatch" && a.size() >= 3))
